@@ -4,6 +4,7 @@ EXTENDS RiskCfg
 \* feed alphabets at exponent -8: O1 prices collateral B1 ($2), O3 prices the debt banks ($1)
 OV == {<<"O1", 200000000, 1000000, 196000000, 800000>>,      \* spot above EMA, different confidences
        <<"O1", 50000000, 0, 50000000, 0>>,                     \* a drop to a quarter, exact price
+       <<"O1", 60000000, 0, 60000000, 0>>,                     \* a drop after which the account is healthy only thanks to the e-mode maintenance weight
        <<"O1", 200000000, 9000000, 200000000, 9000000>>,       \* 4.5 % confidence x 2.12 = 9.5 %: capped at 5 %
        <<"O1", 200000000, 12000000, 200000000, 1000000>>,      \* spot confidence beyond the maximum, EMA confidence fine
        <<"O3", 100000000, 200000, 101000000, 300000>>,
